@@ -27,6 +27,7 @@ from unified_planning.model.problem_kind_versioning import LATEST_PROBLEM_KIND_V
 from unified_planning.engines.mixins.compiler import CompilationKind, CompilerMixin
 from unified_planning.engines.engine import Engine, Credits
 from unified_planning.engines.results import CompilerResult
+from unified_planning.engines.compilers.utils import grounded_problem_kind
 from unified_planning.engines.compilers.grounder import Grounder
 from unified_planning.exceptions import UPUsageError
 from tarski.grounding import LPGroundingStrategy
@@ -106,7 +107,7 @@ class TarskiGrounder(Engine, CompilerMixin):
     def resulting_problem_kind(
         problem_kind: ProblemKind, compilation_kind: Optional[CompilationKind] = None
     ) -> ProblemKind:
-        return problem_kind.clone()
+        return grounded_problem_kind(problem_kind)
 
     def _compile(
         self, problem: "up.model.AbstractProblem", compilation_kind: "CompilationKind"
